@@ -15,6 +15,17 @@ vanished (AnalysisError -> exit 2), as before.
 import ast
 
 
+def _dotted(n):
+    parts = []
+    while isinstance(n, ast.Attribute):
+        parts.append(n.attr)
+        n = n.value
+    if isinstance(n, ast.Name):
+        parts.append(n.id)
+        return '.'.join(reversed(parts))
+    return None
+
+
 def _consts(fn):
     return {x.value for x in ast.walk(fn) if isinstance(x, ast.Constant) and isinstance(x.value, str)}
 
@@ -69,6 +80,17 @@ ROLES = {
         and any(isinstance(x, ast.Raise) for x in ast.walk(f.node))
         and ('rev' in _joined(f.node) or 'rev' in ' '.join(sorted(_attrs(f.node))) or True)
         and not any(isinstance(x, (ast.FunctionDef,)) and x is not f.node for x in ast.walk(f.node)),
+    '_TRSTractList._verify_iterable':
+        lambda f: _in_class(f, '_TRSTractList') and f.outer is None and 'into' in f.params()
+        and any((_dotted(d) or '') == 'classmethod' for d in f.node.decorator_list)
+        and any(isinstance(x, ast.For) for x in ast.walk(f.node)) and 'append' in _calls(f.node)
+        and '_ok_iterables' not in _attrs(f.node),
+    '_TRSTractList._verify_individual':
+        lambda f: _in_class(f, '_TRSTractList') and f.outer is None and '_ok_individuals' in _attrs(f.node)
+        and any((_dotted(d) or '') == 'classmethod' for d in f.node.decorator_list) and len(f.params()) == 2,
+    '_TRSTractList._sort_custom.i_sort_evaluate':
+        lambda f: f.module.name.endswith('containers.containers') and '_Tract__uid' in _attrs(f.node)
+        and not any(isinstance(x, ast.FunctionDef) and x is not f.node and '_Tract__uid' in _attrs(x) for x in ast.walk(f.node)),
     'tract_preprocess:process_half_plus_q_match':
         lambda f: f.module.name.endswith('tract_preprocess') and f.cls is None and len(f.params()) == 1 and (
             {'ne_found', 'nw_found', 'se_found', 'sw_found'} <= _consts(f.node)
